@@ -2144,3 +2144,45 @@ def t_asm_hint_chain(facts, res, tier):
             res.fail(key, facts.where(ai, n), "append_inline records the statement inside a loop: the declared size is divided between several lines and what the division drops is lost")
         if not m or b is None or b.src != "param":
             res.fail(key + ":size", facts.where(ai, n), "append_inline records the size `%s`, not `%s.unwrap_or(<default>)` of the hint it was given" % (t[:60], sizep[0]))
+
+
+# ----------------------------------------------------------------------------- positions are byte offsets
+
+
+@rule("T-BYTE-UNIT", floor=3,
+      text="source positions (`loc` / `pos`: pest span starts) are byte offsets.  A counter that is compared with such a position, or used to slice "
+           "the text, and advanced while the text is walked character by character (`chars()`, a stored `Chars`) advances by the encoded length "
+           "of each character (`c.len_utf8()`), not by one: after the first non-ASCII character a count of characters lags behind the byte "
+           "offset (a wrong line) and, used as a slice bound, falls inside a character (a panic)")
+def t_byte_unit(facts, res, tier):
+    n = 0
+    for fn in facts.fns:
+        if fn["file"].endswith("/cpp.rs") or "/tests/" in fn["file"]:
+            continue
+        posp = [p["name"] for p in fn["params"] if p.get("name") in ("loc", "pos") and (p.get("ty") or "").strip() == "usize"]
+        if not posp:
+            continue
+        walks_chars = any(x.get("k") == "mcall" and (x["method"] == "chars" or (x["method"] == "next" and re.search(r"char", _norm(x["recv"])))) for x in walk(fn["body"]))
+        if not walks_chars:
+            continue
+        # counters compared with the position parameter
+        counters = set()
+        for x in walk(fn["body"]):
+            if x.get("k") == "binary" and x["op"] in ("<", "<=", "==", "!=", ">", ">="):
+                l, r = _norm(strip(x["l"])), _norm(strip(x["r"]))
+                if r in posp and l not in posp:
+                    counters.add(l)
+                if l in posp and r not in posp:
+                    counters.add(r)
+        for c in sorted(counters):
+            for x in walk(fn["body"]):
+                if x.get("k") == "assignop" and x["op"] == "+" and _norm(strip(x["l"])) == c:
+                    n += 1
+                    key = "T-BYTE-UNIT:%s:%s" % (fn["name"], c[:40])
+                    rt = _norm(x["r"])
+                    ok = "len_utf8()" in rt or "len()" in rt
+                    res.inst(key + "#%d" % n, True, {"function": fn["name"], "counter": c, "advanced_by": rt[:40]})
+                    if not ok:
+                        res.fail(key, facts.where(fn, x), "%s compares `%s` with the byte offset `%s` but advances it by `%s` per character: non-ASCII text before the place makes the count lag behind (wrong line, or a slice bound inside a character: `--insert_code` with `c = '€';` panicked)" % (fn["name"], c, posp[0], rt[:30]))
+    if n == 0:
+        raise AnchorMissing("no counter compared with a source position while walking characters was found")
